@@ -9,7 +9,7 @@
    open); the check decides it by running every history next to its
    failure-free twin on the real code. *)
 Require Import Calc.Base Calc.Bytecode Calc.Value Calc.FloatText Calc.Ast Calc.Resolve Calc.Compile
-        Calc.VM Calc.Session Calc.MemProofs.
+        Calc.VM Calc.Session Calc.MemProofs Calc.StepErr Calc.StepCode.
 Open Scope Z_scope.
 
 Definition C08_twin_sessions_statement : Prop :=
@@ -87,3 +87,19 @@ Proof.
     + destruct (assoc_get (v_ctxs v) 0); cbn [v_globals set_ctx set_mem]; reflexivity.
 Qed.
 Print Assumptions C08_error_keeps_globals.
+
+(* what was compiled stays compiled: a run that ends in an error (with its reset) leaves code, data and debug table as they were *)
+Theorem C08_error_keeps_the_program : forall fuel v r b,
+  code_of (fst (run_loop fuel v r b)) = code_of v.
+Proof. exact run_keeps_program. Qed.
+Print Assumptions C08_error_keeps_the_program.
+
+(* and the machine handed back after an error is the reset of the state in which the failing step ended *)
+Theorem C08_run_error_resets : forall fuel v r b v1 e rep,
+  run_loop fuel v r b = (v1, RError e rep) ->
+  exists vm0 r0 v' vals, step vm0 r0 b = SErr v' (r_ctx r0) (r_ip r0) e vals /\ v1 = reset_after_error v'.
+Proof.
+  intros fuel v r b v1 e rep H. destruct (run_loop_error fuel v r b v1 e rep H) as (vm0 & r0 & v' & vals & S & _ & E).
+  exists vm0, r0, v', vals. split; assumption.
+Qed.
+Print Assumptions C08_run_error_resets.
